@@ -308,3 +308,8 @@ package js_parser
 // of a later property must therefore depend on the KIND of the properties it has passed (spread or not), not only on
 // their computed-key flag.
 //@ decides substitution-stops-at-object-spread C03: func=(*parser).substituteSingleUseSymbolInExpr ; in=js_parser ; site=call substituteSingleUseSymbolInExpr ; when-arg=1:*.Properties[*].ValueOrNil ; control=1 ; scenario=single_use_moved_past_spread_getter ; must=Property.Kind
+
+// C07 (an index source map is a list of INDEPENDENT maps, source map v3 "sections"): the VLQ decoder state of one section
+// (original line, original column) starts from zero in every section; only the mapping loop inside a section carries it
+// from one segment to the next. State that survives from one section to the next shifts every later section's origins.
+//@ guarded section-decoder-state-starts-afresh C07: func=ParseSourceMap ; in=js_parser ; site=binop phi:originalLine+* ; carried-only-by-innermost-loop=originalLine,originalColumn
